@@ -34,7 +34,8 @@ def B(tier, quick, thorough):
 
 def gen_c01(rng, tier):
     n = B(tier, 900, 20000)
-    return (gen2.gen_pointwise(rng, n, gen.BINOPS_ARITH) + gen2.gen_unary(rng, n // 6, ["neg"]))
+    return (gen2.gen_pointwise(rng, n, gen.BINOPS_ARITH) + gen2.gen_unary(rng, n // 6, ["neg"]) +
+            gen2.gen_tolerance_block(rng, B(tier, 60, 1000), ["arith"]))
 
 
 def gen_c02(rng, tier):
@@ -46,18 +47,20 @@ def gen_c03(rng, tier):
 
 
 def gen_c04(rng, tier):
-    return gen2.gen_pointwise(rng, B(tier, 600, 12000), gen.BINOPS_REL, followups=True)
+    return (gen2.gen_pointwise(rng, B(tier, 600, 12000), gen.BINOPS_REL, followups=True) +
+            gen2.gen_tolerance_block(rng, B(tier, 60, 1000), ["rel"]))
 
 
 def gen_c05(rng, tier):
     n = B(tier, 700, 12000)
     sv = [gen2.Fraction(x) for x in (0, 0, 1, -2, gen2.Fraction(1, 2))]
     return (gen2.gen_pointwise(rng, n, gen.BINOPS_LOGIC, scalar_vals=sv) +
-            gen2.gen_unary(rng, n // 4, ["invert", "make_boolean"]))
+            gen2.gen_unary(rng, n // 4, ["invert", "make_boolean"]) +
+            gen2.gen_tolerance_block(rng, B(tier, 40, 600), ["logic"]))
 
 
 def gen_c06(rng, tier):
-    return gen2.gen_c06(rng, B(tier, 900, 15000))
+    return gen2.gen_c06(rng, B(tier, 900, 15000)) + gen2.gen_tolerance_block(rng, B(tier, 50, 800), ["mask"])
 
 
 def gen_c07(rng, tier):
@@ -66,15 +69,16 @@ def gen_c07(rng, tier):
 
 def gen_c08(rng, tier):
     return (gen2.gen_c08(rng, B(tier, 500, 8000)) + gen2.gen_overflow_block(rng, B(tier, 60, 600)) +
-            gen2.gen_offset_block(rng, B(tier, 60, 600)))
+            gen2.gen_offset_block(rng, B(tier, 60, 600)) + gen2.gen_tiny_stats(rng, B(tier, 40, 400), ["moments"]))
 
 
 def gen_c09(rng, tier):
-    return gen2.gen_c09(rng, B(tier, 350, 6000))
+    return gen2.gen_c09(rng, B(tier, 350, 6000)) + gen2.gen_tiny_stats(rng, B(tier, 30, 300), ["dist", "moments"])
 
 
 def gen_c10(rng, tier):
-    progs = gen2.gen_c10(rng, B(tier, 350, 4000))
+    progs = (gen2.gen_c10(rng, B(tier, 350, 4000)) + gen2.gen_tiny_stats(rng, B(tier, 20, 200), ["dist"]) +
+             gen2.gen_slicer_extrema(rng, B(tier, 40, 600)))
     if tier == "thorough":
         progs += gen2.gen_c10(rng, 0, exhaustive=True)
     return progs
@@ -85,11 +89,11 @@ def gen_c11(rng, tier):
 
 
 def gen_c12(rng, tier):
-    return gen2.gen_c12(rng, B(tier, 600, 12000))
+    return gen2.gen_c12(rng, B(tier, 600, 12000)) + gen2.gen_tolerance_block(rng, B(tier, 60, 1000), ["ident", "arith", "mask"])
 
 
 def gen_c13(rng, tier):
-    return gen2.gen_c13(rng, B(tier, 500, 10000))
+    return gen2.gen_c13(rng, B(tier, 400, 8000)) + gen2.gen_c13_chain(rng, B(tier, 150, 3000))
 
 
 def gen_c14(rng, tier):
@@ -103,7 +107,8 @@ def gen_c15(rng, tier):
 
 
 def gen_c16(rng, tier):
-    return gen2.gen_c16(rng, B(tier, 350, 6000))
+    # (the chain block: composed histories result -> copy / shift / fill -> in-place layer; all objects stay first-class)
+    return gen2.gen_c16(rng, B(tier, 350, 6000)) + gen2.gen_c13_chain(rng, B(tier, 80, 1500))
 
 
 def gen_c17(rng, tier):
@@ -120,7 +125,8 @@ def gen_c18(rng, tier):
 
 
 def gen_c19(rng, tier):
-    return gen2.gen_c19(rng, B(tier, 250, 4000))
+    return (gen2.gen_c19(rng, B(tier, 250, 4000)) + gen2.gen_tiny_stats(rng, B(tier, 40, 400), ["cov"]) +
+            gen2.gen_cov_overflow(rng, B(tier, 50, 500)))
 
 
 def gen_c20(rng, tier):
